@@ -59,7 +59,7 @@ GrammarValidTree(t) ==
          LET b == t.br[k] IN
          /\ IF b.role = "/"
             THEN b.kind = "atom" /\ (IF b.d = 0 THEN k = 1 ELSE t.br[k - 1].kind = "node" /\ t.br[k - 1].d = b.d - 1)
-            ELSE TokPlusAln(Colon(b.role), {"ROLE"})
+            ELSE TokPlusAln(b.role, {"ROLE"})       \* a role is written with its colon
          /\ IF b.kind = "node" THEN (b.val # NULL => OneTok(b.val, {"SYMBOL"}))
             ELSE b.val = NULL \/ TokPlusAln(b.val, AtomTypes)
          \* an empty nested node has no branches of its own
